@@ -761,3 +761,15 @@ Definition judge (c : case) : N :=
           end
       end
   end.
+
+(* ---- vocabulary of the refutation theorems in C06_Props ---- *)
+(* a request is served by a site that demands client certificates although the handshake was
+   governed by a config with another client-certificate policy *)
+Definition served_under_foreign_policy (sites : list site) (dflt : bytes) (conn : option bytes)
+           (sni rhost : bytes) : Prop :=
+  exists g v s k i c b,
+    make_tls_config (default_ciphers true) [] (map (fun s => Some (s_tls s)) sites) = MkGroup g /\
+    serve sites (Some sni) rhost = Served v /\ nth_error sites v = Some s /\ demands (s_tls s) = true /\
+    get_config g dflt conn sni = Found k (i, c, Some b) /\ b_cauth b <> cauth (s_tls s).
+Definition open_site (a h : string) : site := mkS (bs a) (mkT (bs h) true TLS12 TLS13 [] [] [] true 0 [] false).
+Definition mtls_site (a h : string) : site := mkS (bs a) (mkT (bs h) true TLS12 TLS13 [] [] [] true 2 [] false).
